@@ -372,6 +372,43 @@ def partial_params_cases(run, keys):
                                 theorem="C02_formula_" + key)
 
 
+def result_ownership_cases(run, keys):
+    """the array a caller got from model() is the caller's: scaled in place
+    (say, to nN) and the model evaluated again with the same parameters and
+    abscissa, the second result is the documented force again, in a new
+    array"""
+    from nanite import model
+    for key in sorted(keys):
+        md = model.models_available[key]
+        for orient in (1, -1):
+            x = np.linspace(8e-7, -1.2e-6, 9)[::orient].copy()
+            run.case({"result-ownership": key, "orientation": orient},
+                     kind="ownership")
+            fk = f"ownership:{key}:{orient}"
+            try:
+                p = md.get_parameter_defaults()
+                p["contact_point"].set(value=2e-7)
+                r1 = md.model(p, x)
+                want = np.array(r1, copy=True)
+                r1 *= 1e9
+                r1[0] = 7.0
+                r2 = md.model(p, x)
+                why = None
+                if r2 is r1 or np.shares_memory(r1, r2):
+                    why = ("the second evaluation hands out the array the "
+                           "caller got (and modified) before")
+                elif np.asarray(r2).tobytes() != want.tobytes():
+                    why = ("the second evaluation differs from the first "
+                           f"(max {float(np.max(np.abs(r2 - want))):.3g})")
+            except BaseException as e:
+                why = f"raised {type(e).__name__}: {e}"
+            if why:
+                run.failing(SITE, fk, f"{key}: model() twice with the same "
+                            f"arguments, the first result scaled in place in "
+                            f"between: {why}", payload={"kind": "rerun"},
+                            theorem="C02_formula_" + key)
+
+
 def sneddon_documented_bound(run):
     """numerical cross-check of the documented 1e-4 bound against the exact
     implicit solution (the Coq theorem C02_sneddon_series_close is the proof)"""
@@ -447,6 +484,7 @@ def check(run):
     try:
         constrained_params_cases(run, dict(gen_formulas.SHIPPED))
         partial_params_cases(run, dict(gen_formulas.SHIPPED))
+        result_ownership_cases(run, dict(gen_formulas.SHIPPED))
     except BaseException as e:
         run.obligation("constrained-params-completed", False,
                        f"{type(e).__name__}: {e}")
